@@ -275,26 +275,32 @@ func (c *c14) idiom(fd *ast.FuncDecl, e ast.Expr) string {
 			}
 		}
 	}
-	// G4: h = rt.F[i](h) inside the recognised reverse loop
+	// G4: h = S[idx](h) / S[idx].M(h) inside a loop whose index expression provably visits
+	// len(S)-1 … 0 (revloop.go): every index is within bounds
 	if ix, ok := e.(*ast.IndexExpr); ok {
-		var loop *ast.ForStmt
+		var loop ast.Stmt
 		ast.Inspect(fd.Body, func(n ast.Node) bool {
-			if fs, ok := n.(*ast.ForStmt); ok && fs.Pos() <= e.Pos() && e.End() <= fs.End() {
-				loop = fs
+			switch l := n.(type) {
+			case *ast.ForStmt:
+				if l.Pos() <= e.Pos() && e.End() <= l.End() {
+					loop = l
+				}
+			case *ast.RangeStmt:
+				if l.Pos() <= e.Pos() && e.End() <= l.End() {
+					loop = l
+				}
 			}
 			return true
 		})
-		if loop != nil && len(loop.Body.List) == 1 {
-			if as, ok := loop.Body.List[0].(*ast.AssignStmt); ok && len(as.Lhs) == 1 {
-				h := identObj(info, as.Lhs[0])
-				if h != nil && rc.reverseWrapLoop(loop, h) {
-					return "G4 reverse loop: i runs from len(s)-1 down to 0 over the same slice"
-				}
-				if h != nil {
-					if ms := identObj(info, ix.X); ms != nil && reverseLoopOver(rc, loop, h, ms, "Middleware") {
-						return "G4 reverse loop over ms"
-					}
-				}
+		if loop != nil {
+			var before []ast.Stmt
+			if blk, i := enclosingBlockOfStmt(fd.Body, loop); blk != nil {
+				before = blk.List[:i]
+			}
+			sliceStr := types.ExprString(ix.X)
+			isSlice := func(x ast.Expr) bool { return types.ExprString(x) == sliceStr }
+			if newRevLoop(info, loop, before, isSlice).visitsDescending(ix.Index) {
+				return "G4 the index expression visits len(S)-1 … 0 over the iterations of the loop"
 			}
 		}
 	}
@@ -983,4 +989,21 @@ func c14Witness(r *Report) {
 		scratch.Obls[i].Key = "w." + name + ":x"
 	}
 	compareWitness(r, "C14", scratch, witnessExpectations(p))
+}
+
+// enclosingBlockOfStmt: the block whose list contains st, and its position there.
+func enclosingBlockOfStmt(root *ast.BlockStmt, st ast.Stmt) (*ast.BlockStmt, int) {
+	var blk *ast.BlockStmt
+	idx := -1
+	ast.Inspect(root, func(n ast.Node) bool {
+		if b, ok := n.(*ast.BlockStmt); ok {
+			for i, s := range b.List {
+				if s == st {
+					blk, idx = b, i
+				}
+			}
+		}
+		return blk == nil
+	})
+	return blk, idx
 }
